@@ -41,7 +41,8 @@ func TestVerifReload(t *testing.T) {
 	cfgs := map[string]rlCfg{"A": {"A", 1, []uint{1, 2}}, "B": {"B", 2, []uint{2, 3}}, "C": {"A", 2, []uint{1, 2, 3}}, "D": {"noadmin", 1, []uint{1}},
 		"E": {"A", 1, []uint{1, 3}}, // same directory as A/C, but the only administrator's parameter set (2) is gone: fails the check
 		"F": {"B", 3, []uint{3}},    // the same for B's directory
-		"G": {"stray", 1, []uint{1, 2}}} // a directory with a valid administrator and a stray file: fails the check
+		"G": {"stray", 1, []uint{1, 2}},
+		"H": {"A", 2, []uint{2, 3}}} // loads (the administrator's set 2 is there), but set 1 is retired: its records are unsupported from now on // a directory with a valid administrator and a stray file: fails the check
 	rng := rand.New(rand.NewSource(7))
 	var events []map[string]interface{}
 	var emu sync.Mutex
